@@ -1146,6 +1146,33 @@ def run_simplify_diff(ctx, exe, model, n):
     return len(lines), diverged, ncrash
 
 
+def simplify_diff(ctx, n):
+    """Float/impl tie of the SurfaceSimplifier model for C12: builds harness/solids.cc and
+    celer_model_c09b (no proof-side work), runs n random `simplify <tol> <sense> <surface>` ops
+    (all 17 quadric classes incl. near-degenerate coefficient patterns, tolerances 1.5e-8..1e-3)
+    through the REAL RecursiveSimplifier and through Model/Solids.lean `simplify` at Float, and
+    diffs the answers exactly (a crash of the real code = `diverged` of the model counts as
+    agreement and is reported separately).
+    Returns {"ops": int, "diverged": [ {op, impl, model} ... ], "crashes": int,
+             "harness": "solids", "model_exe": path, "error": str or None}."""
+    exe, log, _ = vlib.build_harness("solids", HARNESS["solids"])
+    out = {"ops": 0, "diverged": [], "crashes": 0, "harness": "solids",
+           "model_exe": vlib.model_exe(LEAN_PROP), "error": None}
+    if exe is None:
+        out["error"] = "harness/solids.cc did not build: " + log[-500:]
+        return out
+    import os
+    model = vlib.model_exe(LEAN_PROP)
+    # always through lake (incremental): a stale binary would tie the theorems to an old model
+    res = vlib.lean_build(["celer_model_" + LEAN_PROP.lower()])
+    if not res["ok"] or not os.path.exists(model):
+        out["error"] = "celer_model_c09b did not build"
+        return out
+    n_ops, div, ncrash = run_simplify_diff(ctx, exe, model, n)
+    out.update({"ops": n_ops, "diverged": div, "crashes": ncrash})
+    return out
+
+
 def run_xform_diff(ctx, exe, model, n, findings):
     """SurfaceTransformer on random surfaces of every class with rotations / reflections: exact
     diff, plus the impl-side oracle `sense at R x + t of the transformed surface = sense at x`"""
